@@ -931,6 +931,7 @@ ABT_bool ABTI_sched_has_to_stop(ABTI_sched *p_sched)
     }
 
     if (!ABTI_sched_has_unit(p_sched)) {
+        ABTI_VERIF_POINT(ABTI_VERIF_P_SCHED_STOP_AFTER_SIZE);
         if (ABTD_atomic_acquire_load_uint32(&p_sched->request) &
             (ABTI_SCHED_REQ_FINISH | ABTI_SCHED_REQ_REPLACE)) {
             /* Check join request */
